@@ -71,6 +71,12 @@ pub async fn save_env_state(target: &TargetMetadata, env_state: TargetEnvState) 
     let file_path = get_checksums_file_path(target);
     let target_id = target.id.clone();
     task::spawn_blocking(move || {
+        #[cfg(zinoma_verif)]
+        crate::verif::hooks::crash_point_partial_write(
+            AsRef::<std::path::Path>::as_ref(&file_path),
+            &target_id,
+            &env_state,
+        );
         let file = std::fs::File::create(&file_path)
             .with_context(|| format!("Failed to create checksums file {}", file_path.display()))?;
         bincode::serialize_into(file, &env_state)
